@@ -104,6 +104,14 @@ def evaluate(case):
                                 '%s %s: expected %s, GIR has %r (baseline %r)'
                                 % (i, f, want[0] if len(want) == 1 else 'one of %r' % (want,), got,
                                    fvb[i].get(f) if i in fvb else None)))
+    for (i, f) in sorted(ex.mustnot):
+        vals, label = ex.mustnot[(i, f)]
+        out['must'] += 1
+        got = actual(i, f)
+        if got is not None and got in vals:
+            out['viol'].append(('mustnot|%s|%s|%s' % (label, kind_of(i, va, vb), f),
+                                '%s %s is %r, which contradicts an explicit annotation on another element of the case'
+                                % (i, f, got)))
     summ = None
     for (i, f) in sorted(d):
         if ex.allowed(i, f):
@@ -157,7 +165,11 @@ def reduced_items():
     out = []
     for name in sorted(ELEMENTS):
         e = ELEMENTS[name]
-        menu = list(REDUCED_GENERIC) + REDUCED.get('fn' if e['kind'] in FN else e['kind'], [])
+        if e.get('fam'):
+            # members of an async family: the async annotations (explicit, non-heuristic targets) and skip
+            menu = [['skip', None], ['finish-func', 'foo_other'], ['sync-func', 'load_alt'], ['async-func', 'foo_other']]
+        else:
+            menu = list(REDUCED_GENERIC) + REDUCED.get('fn' if e['kind'] in FN else e['kind'], [])
         for it in menu:
             out.append((name, it))
     return out
